@@ -49,6 +49,25 @@ CHECKS = {
         'note': _NOTE + ' Runs that write no record are outside the property.  Parameter values inside listings are C09\'s subject; C10 compares names, n_data, n_fits, row counts.',
         'technique': 'TLA+ state machine + TLC (safety, action properties, liveness); -simulate behaviours replayed through the real pipeline; trace validation with silent steps',
     },
+    'C13': {
+        'text': 'ApInterpOps.tla gives aperture interpolation of one row exactly (PwLin: refuse below, clamp above, linear between, single aperture repeated); ApInterp.tla builds every table '
+                'over radii subsets of {1,2,4,8,16} AU (1..3 knots quick, 1..4 thorough), 2 rows, values in {0,1,3} (0..3) and TLC checks ExactAtKnots, LinearBetween, ClampedAbove, RefusedBelow, '
+                'SingleRepeats and that one too-small request refuses the call while others are unaffected, for 15 requests from below to above the table.  Every sampled table is replayed into '
+                'ConvolvedFluxes.interpolate (table and requests in AU/pc/cm, flux and error rows), SED.interpolate and SED.interpolate_variable (bare numbers in AU, table in AU/pc/cm); '
+                'recorded random tables (1-8 knots, 1-6 rows) are validated by Trace_ApInterp.',
+        'ref': 'DESIGN.md section 6 C13',
+        'note': _NOTE + ' Boundary: a request exactly on the first/last tabulated radius that goes through a unit conversion may be refused (1 ulp); the plotting variant may use 0.999 x largest radius at and above the table end.',
+        'technique': 'TLA+ spec (exact piecewise-linear functions) + TLC exhaustive; spec->code replay into three entry points; trace validation',
+    },
+    'C14': {
+        'text': 'ExtinctionLaw.tla defines k(lambda) = -2/5 chi(lambda)/chi(V) exactly with zero outside the table; Extinction.tla builds every table of 2..5 (thorough 6) nodes over a 6-wavelength lattice '
+                '(V on a node or between nodes), opacities 1..4, then all sequences of two representation changes (pickle, table, text file, text file with column selection, unit changes, rescaling).  TLC checks '
+                'ExactAtV, ZeroOutside, ScaleInvariant, AtNodes, NonPositive, TableNeverChanges.  Sampled behaviours are replayed into Extinction.get_av (queries on nodes / between / outside / at the ends, in um/nm/cm/m, '
+                'vector and scalar) to 1e-12; recorded random tables of 2..60 (thorough 200) rows with random conversions and queries are validated by Trace_Extinction.',
+        'ref': 'DESIGN.md section 6 C14',
+        'note': _NOTE + ' Boundary: a query exactly on the first/last node that went through a unit conversion may fall 1 ulp outside (0).',
+        'technique': 'TLA+ spec (exact rational law) + TLC exhaustive; spec->code replay; trace validation',
+    },
     'C18': {
         'text': 'filter_output is the Split action of FitSession: a verdict per record from the best chi^2 (chi=) or best chi^2 per fitted point (cpd=) against the threshold, under Select\'s abstract-float rules.  '
                 'Thresholds are generated tightly around every pool source\'s own criterion value.  Replay through the real function on file and list inputs (explicit and automatic output names): each source in exactly one '
